@@ -6,6 +6,7 @@
 //   - every call of another function/method of the same package with the mutexes held at the call,
 //   - every call made THROUGH a field (an injected store, provider, cache: the underlying calls of a wrapper),
 //   - every mutex acquisition with the mutexes already held (lock order).
+//
 // Recognised: x.Lock()/x.RLock() ... x.Unlock()/x.RUnlock() regions, `defer x.Unlock()`, embedded mutexes,
 // package-level mutexes, sync.Once.Do(func) (the closure runs exclusively; code after Do is ordered after it).
 // Lock state changes inside a nested block do not leak out of the block (an early `Unlock(); return` branch).
@@ -275,7 +276,28 @@ func remove(h []held, l string) []held {
 	return r
 }
 
-func (w *walker) block(stmts []ast.Stmt, h []held) {
+// block walks the statements with the locks in h held. It returns the locks that were acquired in this block (or
+// leaked into it from a nested block) and whose release is deferred: on the path through the block they stay held
+// until the function returns, so the statements AFTER the block run with them conditionally held (name + "?").
+func (w *walker) block(stmts []ast.Stmt, h []held) []held {
+	acquired := map[string]bool{}
+	deferred := map[string]bool{}
+	excls := map[string]bool{}
+
+	var leakOut []held
+
+	nested := func(ss []ast.Stmt, hh []held) {
+		for _, l := range w.block(ss, hh) {
+			name := l.lock
+			if !strings.HasSuffix(name, "?") {
+				name += "?"
+			}
+
+			h = append(copyHeld(h), held{name, l.excl})
+			leakOut = append(leakOut, held{name, l.excl})
+		}
+	}
+
 	for _, s := range stmts {
 		if c, ok := lockCall(s); ok {
 			if sel, ok := c.Fun.(*ast.SelectorExpr); ok {
@@ -286,6 +308,7 @@ func (w *walker) block(stmts []ast.Stmt, h []held) {
 					if l := w.lockName(sel.X); l != "" && !isDefer {
 						w.f.acqs = append(w.f.acqs, acq{lock: l, excl: sel.Sel.Name == "Lock", loop: w.loop > 0, held: copyHeld(h)})
 						h = append(copyHeld(h), held{l, sel.Sel.Name == "Lock"})
+						acquired[l], excls[l] = true, sel.Sel.Name == "Lock"
 
 						continue
 					}
@@ -293,6 +316,9 @@ func (w *walker) block(stmts []ast.Stmt, h []held) {
 					if l := w.lockName(sel.X); l != "" {
 						if !isDefer {
 							h = remove(h, l)
+							delete(acquired, l)
+						} else {
+							deferred[l] = true
 						}
 
 						continue
@@ -343,57 +369,67 @@ func (w *walker) block(stmts []ast.Stmt, h []held) {
 
 			w.exprs(x.X, h, nil)
 		case *ast.BlockStmt:
-			w.block(x.List, copyHeld(h))
+			nested(x.List, copyHeld(h))
 		case *ast.IfStmt:
 			if x.Init != nil {
-				w.block([]ast.Stmt{x.Init}, copyHeld(h))
+				nested([]ast.Stmt{x.Init}, copyHeld(h))
 			}
 
 			w.exprs(x.Cond, h, nil)
-			w.block(x.Body.List, copyHeld(h))
+			nested(x.Body.List, copyHeld(h))
 
 			if x.Else != nil {
-				w.block([]ast.Stmt{x.Else}, copyHeld(h))
+				nested([]ast.Stmt{x.Else}, copyHeld(h))
 			}
 		case *ast.ForStmt:
 			if x.Init != nil {
-				w.block([]ast.Stmt{x.Init}, copyHeld(h))
+				nested([]ast.Stmt{x.Init}, copyHeld(h))
 			}
 
 			w.exprs(x.Cond, h, nil)
 			w.loop++
-			w.block(x.Body.List, copyHeld(h))
+			nested(x.Body.List, copyHeld(h))
 			w.loop--
 		case *ast.RangeStmt:
 			w.exprs(x.X, h, nil)
 			w.loop++
-			w.block(x.Body.List, copyHeld(h))
+			nested(x.Body.List, copyHeld(h))
 			w.loop--
 		case *ast.SwitchStmt:
 			if x.Init != nil {
-				w.block([]ast.Stmt{x.Init}, copyHeld(h))
+				nested([]ast.Stmt{x.Init}, copyHeld(h))
 			}
 
 			w.exprs(x.Tag, h, nil)
-			w.block(x.Body.List, copyHeld(h))
+			nested(x.Body.List, copyHeld(h))
 		case *ast.TypeSwitchStmt:
-			w.block(x.Body.List, copyHeld(h))
+			nested(x.Body.List, copyHeld(h))
 		case *ast.CaseClause:
 			for _, e := range x.List {
 				w.exprs(e, h, nil)
 			}
 
-			w.block(x.Body, copyHeld(h))
+			nested(x.Body, copyHeld(h))
 		case *ast.SelectStmt:
-			w.block(x.Body.List, copyHeld(h))
+			nested(x.Body.List, copyHeld(h))
 		case *ast.CommClause:
-			w.block(x.Body, copyHeld(h))
+			nested(x.Body, copyHeld(h))
 		case *ast.GoStmt:
 			w.exprs(x.Call, nil, nil) // a new goroutine holds nothing
 		default:
 			w.exprs(s, h, nil)
 		}
 	}
+
+	for l := range acquired {
+		if deferred[l] {
+			leakOut = append(leakOut, held{l, excls[l]})
+		}
+	}
+
+	sort.Slice(leakOut, func(i, j int) bool { return leakOut[i].lock < leakOut[j].lock })
+
+	return leakOut
 }
 
 func markLHS(e ast.Expr, lhs map[ast.Expr]bool) {
